@@ -148,8 +148,8 @@ class Harness:
 
 # --------------------------------------------------------------------------- graphs
 KINDS0 = "td"  # no dependencies: task / literal data
-KINDS1 = "taln"  # one dependency: task / alias / list-node / nested-list argument
-KINDS2 = "tln"  # >= 2 dependencies  (kind "u" = reference inside a non-task tuple is excluded: see DESIGN C01 note, judged under C09)
+KINDS1 = "talnm"  # one dependency: task / alias / list-node / nested-list argument
+KINDS2 = "tlnm"  # >= 2 dependencies  (kind "u" = reference inside a non-task tuple is excluded: see DESIGN C01 note, judged under C09)
 
 
 def deps_of(n, mask):
@@ -169,7 +169,7 @@ def key_of(style, i):
     return f"k{i}"
 
 
-def kind_assignments(deps, alphabet="tdaln", max_special=None):
+def kind_assignments(deps, alphabet="tdalnm", max_special=None):
     opts = []
     for d in deps:
         base = KINDS0 if not d else (KINDS1 if len(d) == 1 else KINDS2)
@@ -199,6 +199,8 @@ def build_graph(n, mask, kinds, style="int", rev=False, fail=None):
             v = list(d)
         elif c == "n":
             v = (F(i, fail.get(i)), list(d))
+        elif c == "m":
+            v = (F(i, fail.get(i)), {f"p{q}": dk for q, dk in enumerate(d)})  # dict argument, evaluated elementwise
         elif c == "u":
             v = (F(i, fail.get(i)), (5, *d))  # non-callable head => tuple literal with references
         else:
@@ -225,6 +227,8 @@ def ref_values(n, mask, kinds):
             val[i] = list(d)
         elif c == "n":
             val[i] = ("r", i, (list(d),))
+        elif c == "m":
+            val[i] = ("r", i, ({f"p{q}": dv for q, dv in enumerate(d)},))
         elif c == "u":
             val[i] = ("r", i, ((5, *d),))
     return val
